@@ -902,6 +902,10 @@ func (fc *FuncCtx) specBuiltin(st *State, name string, argEs []*SExpr, sc *specC
 	case "strbytes":
 		a := arg(0)
 		return Val{T: App("str$bytes", SliceOf(SInt), a.T), Typ: types.NewSlice(types.Typ[types.Uint8])}, true
+	case "bvor64", "bvand64", "bvxor64":
+		// the (uninterpreted) wide bitwise operators of the executable model, so that trusted bit facts can be stated
+		a, b := arg(0), arg(1)
+		return Val{T: App(name, SInt, a.T, b.T), Typ: types.Typ[types.Uint]}, true
 	case "or8", "and8", "xor8", "andnot8":
 		a, b := arg(0), arg(1)
 		return Val{T: mk(name, SInt, a.T, b.T), Typ: types.Typ[types.Uint8]}, true
